@@ -790,4 +790,46 @@ theorem checkAsync_ok (j : Option J) (a : Option Async) (h : checkAsync j a = .o
             · simp [htt] at h
           · simp at h
 
+
+theorem checkCons_some (j : Option J) (c : Cons) (what : String) (h : checkCons j c what = .ok ()) :
+    ∃ jj, j = some jj := by
+  cases j with
+  | none => simp [checkCons] at h
+  | some jj => exact ⟨jj, rfl⟩
+
+/-- an accepted field index of schema.json carries the model's name, cast, constraints and number
+    of entries -/
+theorem checkFieldIndex_ok (fileIds modelIds : List (Nat × Nat)) (j : J) (fi : FieldIdx)
+    (h : checkFieldIndex fileIds modelIds j fi = .ok ()) :
+    getStr j "name" = .ok (sbytes fi.name) ∧ getStr j "cast" = .ok (sbytes fi.cast.name) ∧
+    (∃ cj, j.get? "constraints" = some cj ∧
+      getBool cj "index" (some false) = .ok fi.cons.index ∧ getBool cj "unique" (some false) = .ok fi.cons.unique ∧
+      getBool cj "upper" (some false) = .ok fi.cons.upper ∧ getBool cj "lower" (some false) = .ok fi.cons.lower) ∧
+    ∃ l, j.get? "index" = some (.arr l) ∧ l.length = fi.idx.length := by
+  simp only [checkFieldIndex, bind, Except.bind] at h
+  split at h
+  · simp at h
+  · split at h
+    · simp at h
+    · rename_i n hn
+      by_cases hne : n = sbytes fi.name
+      · simp [expect, hne] at h
+        split at h
+        · simp at h
+        · rename_i c hc
+          by_cases hce : c = sbytes fi.cast.name
+          · simp [hce] at h
+            split at h
+            · simp at h
+            · rename_i hcons
+              obtain ⟨cj, hcj⟩ := checkCons_some _ _ _ hcons
+              rw [hcj] at hcons
+              split at h
+              · rename_i l hl
+                exact ⟨by rw [hn, hne], by rw [hc, hce], ⟨cj, hcj, checkCons_ok cj _ _ hcons⟩,
+                  l, hl, checkEntries_length _ _ _ _ _ _ _ h⟩
+              · simp at h
+          · simp [hce] at h
+      · simp [expect, hne] at h
+
 end Sod.Codec
